@@ -165,10 +165,10 @@ theorem alt_iso {N : List Term} {Rs : List Rel} (h : ∀ R ∈ Rs, Iso N R) : Is
 
 /-! ### NegatedPath -/
 
-theorem neg_correct (g : Graph) (fw bw : List Term) :
-    Correct (nodes g) (negEval g fw bw) (negRel g fw bw) := by
+theorem negFixed_correct (g : Graph) (fw bw : List Term) :
+    Correct (nodes g) (negEvalFixed g fw bw) (negRel g fw bw) := by
   intro s o x y
-  simp only [negEval, negRel, Restr, List.mem_append]
+  simp only [negEvalFixed, negRel, Restr, List.mem_append]
   have hf : (!fw.isEmpty || bw.isEmpty) = true ↔ (fw ≠ [] ∨ bw = []) := by
     cases fw <;> cases bw <;> simp
   have hb : (!bw.isEmpty) = true ↔ bw ≠ [] := by cases bw <;> simp
@@ -1017,5 +1017,35 @@ theorem seqBw_correct {N : List Term} {e : Ev} {R : Rel} {es : List Ev} {Rs : Li
   obtain ⟨i1, i2⟩ := revOnto_all (Iso N) Rs R [] hR hRs (by simp)
   rw [seqBwRev_correct h2 _ _ h1 i1 i2 s o hso x y, compListRev_revOnto Rs R []]
   rfl
+
+/-! ### NegatedPath as coded -/
+
+/-- the relation `NegatedPath.eval` computes: forward triples whose predicate is not a plain member and
+    whose reversal does not occur with an inverse member's predicate -/
+def negRelImpl (g : Graph) (fw bw : List Term) : Rel := fun x y =>
+  ∃ p, (x, p, y) ∈ g ∧ p ∉ fw ∧ ∀ a ∈ bw, (y, a, x) ∉ g
+
+theorem negImpl_correct (g : Graph) (fw bw : List Term) :
+    Correct (nodes g) (negEval g fw bw) (negRelImpl g fw bw) := by
+  intro s o x y
+  simp only [negEval, negRelImpl, Restr, List.mem_map, List.mem_filter, Bool.and_eq_true, okPos_iff,
+    Bool.not_eq_true', decide_eq_false_iff_not, List.any_eq_false, decide_eq_true_eq]
+  constructor
+  · rintro ⟨⟨a, p, c⟩, ⟨ht, hs, ho, hp, hb⟩, he⟩
+    simp only [Prod.mk.injEq] at he
+    obtain ⟨rfl, rfl⟩ := he
+    exact ⟨⟨p, ht, hp, hb⟩, hs, ho, fun _ _ => triple_nodes ht⟩
+  · rintro ⟨⟨p, ht, hp, hb⟩, hs, ho, _⟩
+    exact ⟨(x, p, y), ⟨ht, hs, ho, hp, hb⟩, rfl⟩
+
+theorem negImpl_iso (g : Graph) (fw bw : List Term) : Iso (nodes g) (negRelImpl g fw bw) := by
+  rintro x y ⟨p, ht, _⟩
+  exact Or.inr (triple_nodes ht)
+
+/-- without inverse members the code computes the negated property set of the specification -/
+theorem negRelImpl_nil (g : Graph) (fw : List Term) : negRelImpl g fw [] = negRel g fw [] := by
+  funext x y
+  apply propext
+  simp [negRelImpl, negRel]
 
 end RV.C11
